@@ -3,7 +3,7 @@ import ast
 
 import z3
 
-from .values import (HArr, HArr2, HList, HObj, HStruct, Ref, SliceV, State, Unsupported, SpecError, Func, Prim,
+from .values import (HViewList, HArr, HArr2, HList, HObj, HStruct, Ref, SliceV, State, Unsupported, SpecError, Func, Prim,
                      Module, ClassV, ExcClass, ExcValue, Bound, Opaque, SpecLambda, UNDEF, to_z3, truth, zand, zor,
                      znot, zimplies, kind_of, is_sym, as_const, SORTS)
 from .engine_expr import GenExp, RangeV, EnumV, ZipV, SpecArr, POISON, Poison
@@ -58,6 +58,23 @@ class PrimMixin:
                     res = list(self.call(m, [v], {}, st, fr, node))
                     if len(res) == 1:
                         return res[0][1]
+        if isinstance(v, Ref) and isinstance(st.get(v), HViewList):
+            return st.get(v).n
+        if isinstance(v, RangeV):
+            lo, hi, step = to_z3(v.lo, "int"), to_z3(v.hi, "int"), v.step
+            sc = as_const(step) if is_sym(step) else step
+            if sc == 1:
+                return z3.simplify(z3.If(hi - lo < 0, 0, hi - lo))
+            raise Unsupported("len(range) with step", node)
+        if isinstance(v, Opaque) and not v.tag.startswith("func"):
+            n = fresh("strlen", I)
+            self.assume(st, n >= 0)
+            return n
+        if isinstance(v, IterView):
+            if not fr.spec:
+                self.raise_from_expr(st.fork(), ExcValue("TypeError"), fr)
+                return self.kill(st)
+            raise SpecError("len of an iterator")
         if isinstance(v, AbsIterable):
             if v.n is None:
                 if not fr.spec:
@@ -217,6 +234,12 @@ class PrimMixin:
         if not args:
             return st.alloc(HList([]))
         v = args[0]
+        if isinstance(v, (AbsIterable, IterView)):
+            src = v
+            while isinstance(src, IterView):
+                src = src.src
+            if isinstance(src, AbsIterable):
+                return st.alloc(HArr("int", src.total, src.items, fresh=True, islist=True))
         if isinstance(v, Ref) and isinstance(st.get(v), HArr):
             n, t = self.arr_term(st, v)
             return st.alloc(HArr(st.get(v).kind, n, t, fresh=True, islist=True))
@@ -286,6 +309,14 @@ class PrimMixin:
     def p_list_append(self, args, kw, st, fr, node):
         ref, v = args
         h = st.get(ref)
+        if isinstance(h, HViewList):
+            hv = st.get(v) if isinstance(v, Ref) else None
+            if not (isinstance(hv, HArr) and hv.base is not None and hv.base[0] == h.base and as_const(to_z3(hv.base[2], "int")) == 1):
+                raise Unsupported("append of something that is not a contiguous view of the list's base array", node)
+            n = to_z3(h.n, "int")
+            st.put(ref, HViewList(z3.simplify(n + 1), h.base, z3.Store(h.off, n, to_z3(hv.base[1], "int")),
+                                  z3.Store(h.ln, n, to_z3(hv.n, "int")), h.fresh))
+            return None
         if isinstance(h, HArr):
             # symbolic list: append one element
             self.frame_check(ref, st, fr, node)
@@ -495,6 +526,87 @@ class PrimMixin:
         if not (isinstance(a, Ref) and isinstance(b, Ref)):
             return False
         return self.root(st, a) == self.root(st, b)
+
+    def p_builtin_chunk_off(self, args, kw, st, fr, node):
+        h = st.get(args[0])
+        return h.off[to_z3(args[1], "int")]
+
+    def p_builtin_defined_len(self, args, kw, st, fr, node):
+        v = args[0]
+        if isinstance(v, IterView):
+            return False
+        if isinstance(v, AbsIterable):
+            return v.n is not None
+        return True
+
+    def p_builtin_nyielded(self, args, kw, st, fr, node):
+        return st.ghost["out_n"]
+
+    def p_builtin_consumed(self, args, kw, st, fr, node):
+        return st.ghost.get("consumed", 0)
+
+    def p_builtin_nitems(self, args, kw, st, fr, node):
+        v = args[0]
+        while isinstance(v, IterView):
+            v = v.src
+        if isinstance(v, AbsIterable):
+            return v.total
+        return self.p_builtin_len([v], {}, st, fr, node)
+
+    def p_builtin_item(self, args, kw, st, fr, node):
+        v, k = args
+        while isinstance(v, IterView):
+            v = v.src
+        if isinstance(v, AbsIterable):
+            return v.items[to_z3(k, "int")]
+        n, f = self.seq_of(v, st, node)
+        return f(st, k)
+
+    def p_builtin_yields_items_of(self, args, kw, st, fr, node):
+        """yields_items_of(result, source): the returned iterator produces exactly the items of source, lazily"""
+        a, b = args
+        return self.iter_equal(a, b, st)
+
+    def iter_equal(self, a, b, st):
+        while isinstance(a, IterView):
+            a = a.src
+        while isinstance(b, IterView):
+            b = b.src
+        if isinstance(a, AbsIterable) and isinstance(b, AbsIterable):
+            return z3.And(a.items == b.items, to_z3(a.total, "int") == to_z3(b.total, "int"))
+        if isinstance(a, RangeV) and isinstance(b, RangeV):
+            return z3.And(to_z3(a.lo, "int") == to_z3(b.lo, "int"), to_z3(a.hi, "int") == to_z3(b.hi, "int"),
+                          to_z3(a.step, "int") == to_z3(b.step, "int"))
+        return False
+
+    def p_time_time(self, args, kw, st, fr, node):
+        self.use("time.time() returns an arbitrary float")
+        return fresh("time", R)
+
+    def p_concurrent_futures_ProcessPoolExecutor(self, args, kw, st, fr, node):
+        return Opaque("executor")
+
+    def p_executor_map(self, args, kw, st, fr, node):
+        """Executor.map(fn, iterable): results in submission order for any schedule (stdlib contract, assumed)"""
+        fn, it = args[0], args[1]
+        src = it
+        while isinstance(src, IterView):
+            src = src.src
+        if not isinstance(src, AbsIterable):
+            raise Unsupported("executor.map over %s" % kind_of(it), node)
+        if not (isinstance(fn, Opaque) and fn.tag.startswith("func:")):
+            raise Unsupported("executor.map with a non-parameter function", node)
+        f = ufunc("param_" + fn.tag[5:], I, I)
+        k = z3.Int("i!m")
+        r = AbsIterable("map%d" % next(_mc), src.total, False)
+        r.items = z3.Lambda([k], f(src.items[k]))
+        self.use("concurrent.futures.Executor.map returns results in submission order for every schedule (stdlib contract)")
+        return r
+
+    def p_builtin_mapped(self, args, kw, st, fr, node):
+        """mapped('fn', x): the uninterpreted image of item x under the function parameter fn"""
+        f = ufunc("param_" + args[0], I, I)
+        return f(to_z3(args[1], "int"))
 
     def p_builtin_is_none(self, args, kw, st, fr, node):
         return args[0] is None
@@ -948,6 +1060,17 @@ class PrimMixin:
 
     def np_size(self, args, kw, st, fr, node):
         return self.getattr(args[0], "size", st, fr, node)
+
+
+import itertools as _itx
+_mc = _itx.count()
+
+
+class IterView:
+    """an iterator (no len) over the items of another iterable"""
+
+    def __init__(self, src):
+        self.src = src
 
 
 class AbsIterable:
